@@ -382,6 +382,8 @@ DEV_BLOCKS = {
         ["version 15.1"], ["end"], ["! a comment"], ["ntp clock-period 123"], ["Building configuration..."],
         ["banner motd ^C", "hello world", " indented", "^C"], ["banner login #", "x", "#"],
         ["no ip http server"], ["default interface GigabitEthernet0/3"], ["hostname r1"], ["hostname r2"],
+        ["interface GigabitEthernet0/9", " description [core] uplink to the aggregation layer [red] and beyond the 80th column of an ordinary terminal window"],
+        ["ip as-path access-list 20 permit ^(65001|65002|65003|65004|65005|65006|65007|65008)_[a-f]+_(64512|64513|64514)$"],
     ],
     "nxos": [
         ["interface Ethernet1/1", " description a", " ip ospf bfd", " ip address 10.0.0.1/24"],
@@ -389,6 +391,7 @@ DEV_BLOCKS = {
         ["router bgp 65000", " address-family ipv4 unicast", "  maximum-paths ibgp 2", " neighbor 1.1.1.1", "  address-family ipv4 unicast", "   send-community"],
         ["router bgp 65000", " router-id 1.1.1.1", " vrf RED", "  address-family ipv4 unicast", "   maximum-paths ibgp 4"],
         ["line vty", " session-limit 5", " exec-timeout 10"], ["line vty", " session-limit 7"],
+        ["interface Ethernet1/9", " description [bold]x[/bold] a very long description that runs past the eightieth column of the terminal, [a-f] included"],
         ["hostname n1"], ["hostname n2"], ["no feature telnet"], ["feature bgp"], ["!Command: show running-config"],
         ["version 9.3(5)"], ["banner motd #", "hi", "#"], ["vlan 10", " name a"], ["vlan 10", " name b"],
     ],
@@ -441,7 +444,15 @@ def _cli(method, syntax, fo, fn):
     buf = io.StringIO()
     with contextlib.redirect_stdout(buf), contextlib.redirect_stderr(io.StringIO()):
         app = ccp_script_entry("ccp_faked diff -m %s -s %s %s %s" % (method, syntax, fo, fn))
-    return [str(x) for x in app.stdout]
+    cmds = [str(x) for x in app.stdout]
+    # what the user of `ccp diff` gets is the PRINTED text: after the header lines it must be exactly these commands,
+    # one per line, unwrapped and unedited (no console markup, no soft wrapping)
+    text = buf.getvalue()
+    body = "".join(x + "\n" for x in cmds)          # a command may itself span several lines (banners)
+    head = text[:len(text) - len(body)] if text.endswith(body) else None
+    if head is None or head.count("\n") > 3 or (head and not head.endswith("\n")):
+        return ["__PRINTED_TEXT_DIFFERS__"] + text.split("\n")[-(len(cmds) + 3):]
+    return cmds
 
 
 def run_device(case):
